@@ -353,8 +353,13 @@ async fn stop_case(opener: &Connection, acceptor: &Disp, kind: Kind, phase: Phas
 }
 
 /// finish() must stay pending while acknowledgements are withheld and succeed once they flow.
-async fn finish_ack_case(multi: bool, stopped_code: Option<u64>, rep: &mut Report) {
-    let cls = format!("finish-ack|stop={}|rt={}", stopped_code.is_some(), if multi { "multi" } else { "current" });
+///
+/// `prelude` varies how the stream was closed locally before the observed `finish()`:
+/// 0 = nothing; 1 = an earlier `finish()` future dropped after 50 ms (cancelled by a timeout);
+/// 2 = `AsyncWriteExt::shutdown()`; 3 = two cancelled `finish()` futures in a row.
+/// None of these is an acknowledgement, so the observed `finish()` must still wait.
+async fn finish_ack_case(multi: bool, stopped_code: Option<u64>, prelude: u8, rep: &mut Report) {
+    let cls = format!("finish-ack|stop={}|prelude={prelude}|rt={}", stopped_code.is_some(), if multi { "multi" } else { "current" });
     rep.eval(cls.clone());
     let pair = match ends::pair(PairOpts { relay: true, ..Default::default() }).await {
         Ok(p) => p,
@@ -376,6 +381,13 @@ async fn finish_ack_case(multi: bool, stopped_code: Option<u64>, rep: &mut Repor
             Waited::Done(Err(e)) if werr_ok(&e, c) => {}
             other => rep.violation("C06|finish|after-stop", format!("finish() after the peer stopped with {c}: {other:?}"), w()),
         }
+        if prelude != 0 {
+            // asking again does not turn the stop into a success
+            match within(Duration::from_secs(3), tx.finish()).await {
+                Waited::Done(Err(e)) if werr_ok(&e, c) => {}
+                other => rep.violation("C06|finish|after-stop|repeated", format!("second finish() after the peer stopped with {c}: {other:?}"), w()),
+            }
+        }
         return;
     }
     // withhold everything the server sends (acknowledgements included)
@@ -383,6 +395,23 @@ async fn finish_ack_case(multi: bool, stopped_code: Option<u64>, rep: &mut Repor
     let payload = body(78, 5000);
     if tx.write_all(&payload).await.is_err() {
         return rep.inconclusive(format!("{cls}: write"));
+    }
+    match prelude {
+        1 | 3 => {
+            for _ in 0..prelude.div_ceil(2) {
+                if let Waited::Done(r) = within(ms(50), tx.finish()).await {
+                    rep.violation("C06|finish|completed-without-ack", format!("first finish() returned {r:?} within 50 ms while every packet from the peer was being withheld"), w());
+                    return;
+                }
+            }
+        }
+        2 => {
+            use tokio::io::AsyncWriteExt;
+            if let Waited::Done(Err(e)) = within(ms(500), tx.shutdown()).await {
+                return rep.inconclusive(format!("{cls}: shutdown {e}"));
+            }
+        }
+        _ => {}
     }
     let b0 = hb.beats();
     let held = {
@@ -396,7 +425,11 @@ async fn finish_ack_case(multi: bool, stopped_code: Option<u64>, rep: &mut Repor
                 Some((beats, after))
             }
             Waited::Done(r) => {
-                rep.violation("C06|finish|completed-without-ack", format!("finish() returned {r:?} while every packet from the peer was being withheld"), w());
+                rep.violation(
+                    if prelude == 0 { "C06|finish|completed-without-ack".to_string() } else { format!("C06|finish|completed-without-ack|prelude={prelude}") },
+                    format!("finish() returned {r:?} while every packet from the peer was being withheld (prelude {prelude})"),
+                    w(),
+                );
                 None
             }
         }
@@ -500,8 +533,12 @@ pub fn run(args: &Args) -> Report {
     for multi in [true, false] {
         let rt = crate::runtime(multi, 4);
         rt.block_on(async {
-            finish_ack_case(multi, None, &mut rep).await;
-            finish_ack_case(multi, Some(16384), &mut rep).await;
+            for prelude in 0..4 {
+                finish_ack_case(multi, None, prelude, &mut rep).await;
+            }
+            for prelude in [0, 1] {
+                finish_ack_case(multi, Some(16384), prelude, &mut rep).await;
+            }
         });
         rt.shutdown_timeout(Duration::from_millis(200));
     }
